@@ -91,7 +91,7 @@ Definition step_spec (ς : sstate V) (o : op) : option (sstate V * outcome) :=
     end
   | OMemset t v => match spec_fill V ς t v with Some ς' => Some (ς', RUnit) | None => None end
   | OZero t => match spec_fill V ς t vzero with Some ς' => Some (ς', RUnit) | None => None end
-  | OClone t => match spec_copy_of V vzero ς t true with Some (ς', t') => Some (ς', RNew t') | None => None end
+  | OClone t => match spec_copy_gen V vzero ς t true true with Some (ς', t') => Some (ς', RNew t') | None => None end
   | OMaterialize t same =>
     (* a view or lazily transposed tensor must come back as a fresh copy; a plain tensor may be
        returned as it is *)
@@ -180,7 +180,9 @@ Definition guard_op (σ : store V) (o : op) : gclass :=
                         && (1 <? Z.of_nat (length (filter (fun x => Nat.eqb (d_buf x) (d_buf d)) (tens V σ))))
                      then GAliasedStorage else GOk
                    | g => g end)
-  | OReshape t _ _ => on t guard_transpose
+  | OReshape t dims _ =>
+    on t (fun d => if negb (d_view d) && (size (shp (d_ap d)) =? size dims) && negb (d_len d =? size dims) && negb (is_scalar dims)
+                   then GLateRefusal else guard_transpose d)
   | OCopy dt st => on dt (fun d => on st (fun s => guard_copy d s))
   | OSafeT t axes => on t (fun d => guard_safeT d axes)
   | OApiTranspose t axes =>
